@@ -4,6 +4,6 @@ CONSTANTS NP = 2
           Pat = 2
           Stale = TRUE
           NoReset = FALSE
-INVARIANTS Coherent DoneOk NoStale MustEndOnlyEnds Budget TypeOK
+INVARIANTS NeverStale Coherent DoneOk NoStale MustEndOnlyEnds Budget TypeOK
 PROPERTY NoRefill
 CHECK_DEADLOCK FALSE
